@@ -79,7 +79,7 @@ def plan_cfg(plan, k=1, s=0, emit=False, invs=True, defects="MCNoDefects"):
 
 # plans: (name, constants).  The state space of each plan is partitioned exactly by the shards.
 QUICK_PLANS = [
-    ("1req", dict(maxreqs=1, first="MCAll", later="MCSmall", disp="MCDispAll", held=0, cuts="FALSE")),
+    ("1req", dict(maxreqs=1, first="MCAll", later="MCTiny", disp="MCDispAll", held=0, cuts="FALSE")),
     ("2req", dict(maxreqs=2, first="MCTiny", later="MCTiny", disp="MCDispSmall", held=1, cuts="TRUE",
                   rets='{"F", "1"}', ns="{1}")),
 ]
@@ -104,13 +104,13 @@ DEVIATIONS = [
 
 
 # ------------------------------------------------------------------------------------------ stage 4
-def validate_traces(batch):
-    """batch: list of {"cfg": {n, block}, "events": [...]}.  Returns list of (tid, position, clause)."""
-    r = tlc.run("Pool_Trace", TRACE_CFG, workers=1, files={"traces.json": json.dumps(batch)},
+def validate_traces(batch_json, n):
+    """batch_json: JSON array of {"cfg": {n, block}, "events": [...]}.  Returns list of (tid, position, clause)."""
+    r = tlc.run("Pool_Trace", TRACE_CFG, workers=1, files={"traces.json": batch_json},
                 env={"TRACE_FILE": "traces.json"}, timeout=3600, heap="3g")
     verdicts = tlc.tagged_tuples(r.out, "VERDICT")
-    if len(verdicts) != len(batch) or sorted(v[0] for v in verdicts) != list(range(1, len(batch) + 1)):
-        raise tlc.MachineryError(f"Pool_Trace produced {len(verdicts)} verdicts for {len(batch)} traces\n{r.out[-2000:]}")
+    if len(verdicts) != n or sorted(v[0] for v in verdicts) != list(range(1, n + 1)):
+        raise tlc.MachineryError(f"Pool_Trace produced {len(verdicts)} verdicts for {n} traces\n{r.out[-2000:]}")
     return r, verdicts
 
 
@@ -181,7 +181,8 @@ class Judge:
         except ph.vnet.HarnessStall as ex:
             self.machinery.append(f"harness stall: {ex} in {json.dumps(sc)[:400]}")
             return
-        self.pending.append((sc, r, with_expectations))
+        # kept as strings: nothing the garbage collector has to walk at every quiescence of later scenarios
+        self.pending.append((json.dumps(sc), json.dumps(r["events"]), json.dumps(r["obs"]), with_expectations))
         if is_nontrivial(sc):
             self.keys.add(sc_key(sc))
         if len(self.pending) >= self.batch:
@@ -190,11 +191,15 @@ class Judge:
     def flush(self):
         if not self.pending:
             return
-        batch = [{"cfg": {"n": sc["cfg"]["n"], "block": sc["cfg"]["block"]}, "events": r["events"]}
-                 for sc, r, _ in self.pending]
-        _, verdicts = validate_traces(batch)
+        parts = []
+        for scs, evs, _, _ in self.pending:
+            c = json.loads(scs)["cfg"]
+            parts.append('{"cfg": {"n": %d, "block": %s}, "events": %s}' % (c["n"], "true" if c["block"] else "false", evs))
+        _, verdicts = validate_traces("[" + ",\n".join(parts) + "]", len(parts))
         for tid, pos, clause in verdicts:
-            sc, r, withexp = self.pending[tid - 1]
+            scs, evs, obss, withexp = self.pending[tid - 1]
+            sc = json.loads(scs)
+            r = {"events": json.loads(evs), "obs": json.loads(obss)}
             self.n += 1
             self.events += len(r["events"])
             self.clause_counts[clause] = self.clause_counts.get(clause, 0) + 1
@@ -220,6 +225,15 @@ class Judge:
                 "keys": self.keys, "samples": self.samples, "clauses": self.clause_counts}
 
 
+def _warm():
+    """Import everything and run one scenario, then freeze: gc.collect() at each quiescence stays cheap."""
+    ph.run_scenario({"cfg": dict(n=1, block=False, retries="R2", preload=False, release=False, route="fwd"),
+                     "steps": [{"op": "req", "id": 1, "atts": ["r_eof", "r302_ka", "ok_ka"]},
+                               {"op": "disp", "id": 1, "how": "read"}]})
+    gc.collect()
+    gc.freeze()
+
+
 _SC = re.compile(r'^<<"SC", "(.*)">>$')
 
 
@@ -231,7 +245,7 @@ def _emit_shard(args):
     """One emission shard: TLC (1 worker) checks the invariants on its share of the histories and prints each
     finished history; every printed history is replayed on the real code at once; traces are judged by TLC."""
     name, plan, k, s = args
-    gc.freeze()
+    _warm()
     j = Judge()
     emitted = 0
     garbled = []
@@ -281,7 +295,7 @@ def random_scenario(rng, maxreqs=6):
 
 def _random_shard(args):
     seed, n = args
-    gc.freeze()
+    _warm()
     rng = random.Random(seed)
     j = Judge()
     for _ in range(n):
